@@ -209,6 +209,7 @@ class LibMixin:
         nm.ns['ones'] = Builtin('ones', lambda I, a, k: self.np_full(a, k, 1))
         nm.ns['ndarray'] = BuiltinType('ndarray')
         nm.ns['nan_to_num'] = Builtin('nan_to_num', self.np_nan_to_num)
+        nm.ns['array'] = Builtin('array', self.np_array)
         self.stub_modules['numpy'] = nm
         rm = ModuleModel('numpy.random')
         rm.opaque = True
@@ -772,9 +773,22 @@ class LibMixin:
         raise Unsupported('hash of ' + type(v).__name__)
 
     # -------------------------------------------------------------------- numpy
+    def np_array(self, I, a, k):
+        """np.array(nested lists[, dtype]): kept as the nested list itself (element access only)"""
+        x = a[0]
+        if isinstance(x, (list, tuple)):
+            return self.new_list(list(x))
+        if isinstance(x, SList):
+            return self.to_list(x)
+        raise Unsupported('np.array of ' + type(x).__name__)
+
     def np_full(self, a, k, val):
         shape = a[0]
         dtype = k.get('dtype', a[1] if len(a) > 1 else None)
+        if is_intlike(shape) and isinstance(concretize(shape), int):
+            # 1-D array of concrete length: a list of numbers (float unless an integer dtype is given)
+            isint = isinstance(dtype, BuiltinType) and dtype.name in ('int', 'bool')
+            return self.new_list([(int(val) if isint else float(val)) for _ in range(concretize(shape))])
         if not (isinstance(shape, tuple) and len(shape) == 2):
             raise Unsupported('numpy shape')
         kind = 'real'
